@@ -100,6 +100,9 @@ func TestC07Laws(t *testing.T) {
 		if rapid.Bool().Draw(rt, "two") {
 			s.S2 = genRedactableish(rt, "s2")
 		}
+		if rapid.IntRange(0, 119).Draw(rt, "scaled") == 77 {
+			s.Scale = sizeThresholds[rapid.IntRange(0, len(sizeThresholds)-1).Draw(rt, "scale")] + rapid.IntRange(-40, 40).Draw(rt, "scaled")
+		}
 		return s
 	})
 }
